@@ -324,3 +324,99 @@ B("b-all-with-builtin-all", ["C01", "C05"],
         return True""", """        return all(condition.call(*args, **kwargs) for condition in self)"""))
 B("b-match-in-items", ["C01"],
   E(EVS, "        return any(e == event for e in self)", "        return event in self._items"))
+
+# ----------------------------------------------------------------------------------------- C03
+M("c03-sync-lifo-pop", "C03", ["C03.fifo"],
+  E(SYNC, """            while self._external_queue:
+                    trigger_data = self._external_queue.popleft()""", """            while self._external_queue:
+                    trigger_data = self._external_queue.pop()""".replace("            while", "                while", 1).replace("                while", "                while", 1)) if False else
+  E(SYNC, "                    trigger_data = self._external_queue.popleft()", "                    trigger_data = self._external_queue.pop()"))
+M("c03-put-appendleft", "C03", ["C03.fifo"],
+  E(BASE, "        self._external_queue.append(trigger_data)", "        self._external_queue.appendleft(trigger_data)"))
+M("c03-rlock", ["C03", "C06"], ["C03.elect", "C06.nonblock"],
+  E(BASE, "from threading import Lock", "from threading import RLock as Lock"), note="alias keeps the name; resolved through the import")
+M("c03-rlock-explicit", ["C03", "C06"], ["C03.elect", "C06.nonblock"],
+  E(BASE, "from threading import Lock", "from threading import RLock"),
+  E(BASE, "        self._processing = Lock()", "        self._processing = RLock()"))
+M("c03-async-blocking-acquire", ["C03", "C06"], ["C03.elect", "C06.nonblock"],
+  E(ASYNC, """        if not self._processing.acquire(blocking=False):
+            return None
+""", """        if not self._processing.acquire():
+            return None
+"""))
+M("c03-sync-last-result", "C03", ["C03.first"],
+  E(SYNC, """                        if first_result is self._sentinel:
+                            first_result = result""", """                        first_result = result"""))
+M("c03-sync-trigger-when-acquire-failed", ["C03", "C06"], ["C03.elect", "C03.rtc", "C06.mutex"],
+  E(SYNC, """        if not self._processing.acquire(blocking=False):
+            return None
+""", """        if not self._processing.acquire(blocking=False):
+            if len(self._external_queue) > 8:
+                return self._trigger(self._external_queue.popleft())
+            return None
+"""))
+M("c03-enqueue-after-drain", ["C03", "C06"], ["C03.put", "C06.order"],
+  E(EV, """        machine._put_nonblocking(trigger_data)
+        result = machine._processing_loop()
+""", """        result = machine._processing_loop()
+        machine._put_nonblocking(trigger_data)
+"""))
+M("c03-drain-by-recursion", "C03", ["C03.depth", "C03.rtc"],
+  E(SYNC, """        return first_result if first_result is not self._sentinel else None
+
+    def _trigger""", """        if self._external_queue:
+            self.processing_loop()
+        return first_result if first_result is not self._sentinel else None
+
+    def _trigger"""))
+M("c03-nonrtc-uses-pop", "C03", ["C03.nonrtc", "C03.fifo"],
+  E(SYNC, """            trigger_data = self._external_queue.popleft()
+            return self._trigger(trigger_data)""", """            trigger_data = self._external_queue.pop()
+            return self._trigger(trigger_data)"""), note="nested immediate events would take the wrong trigger")
+M("c03-async-accepts-rtc-false", "C03", ["C03.nonrtc"],
+  E(ASYNC, """        if not rtc:
+            raise InvalidDefinition(_("Only RTC is supported on async engine"))
+""", ""))
+M("c03-initial-returns-result", ["C03", "C11"], ["C03.first", "C11.sentinel"],
+  E(SYNC, """            self._activate(trigger_data, transition)
+            return self._sentinel""", """            executed, result = self._activate(trigger_data, transition)
+            return result"""))
+M("c03-trigger-called-from-put", ["C03", "C06"], ["C03.rtc", "C06.mutex"],
+  E(SM, """        self._engine.put(trigger_data)
+""", """        self._engine.put(trigger_data)
+        if trigger_data.event == "urgent":
+            self._engine._trigger(self._engine._external_queue.popleft())
+"""))
+M("c03-get-engine-ignores-rtc", "C03", ["C03.nonrtc"],
+  E(SM, "        return SyncEngine(self, rtc=rtc)", "        return SyncEngine(self, rtc=True)"))
+
+B("b-drain-extracted-helper", ["C03", "C04", "C06"],
+  E(SYNC, """                while self._external_queue:
+                    trigger_data = self._external_queue.popleft()
+                    try:
+                        result = self._trigger(trigger_data)
+                        if first_result is self._sentinel:
+                            first_result = result
+                    except Exception:
+                        # Whe clear the queue as we don't have an expected behavior
+                        # and cannot keep processing
+                        self._external_queue.clear()
+                        raise
+""", """                first_result = self._drain(first_result)
+"""),
+  E(SYNC, """    def _trigger(self, trigger_data: TriggerData):""", """    def _drain(self, first_result):
+        while self._external_queue:
+            trigger_data = self._external_queue.popleft()
+            try:
+                result = self._trigger(trigger_data)
+                if first_result is self._sentinel:
+                    first_result = result
+            except Exception:
+                self._external_queue.clear()
+                raise
+        return first_result
+
+    def _trigger(self, trigger_data: TriggerData):"""))
+B("b-clear-by-rebinding-deque", ["C03", "C04", "C06"],
+  E(ASYNC, "                        self._external_queue.clear()", "                        self._external_queue = deque()"),
+  E(ASYNC, "from typing import TYPE_CHECKING\n", "from collections import deque\nfrom typing import TYPE_CHECKING\n"))
